@@ -85,7 +85,28 @@ def font_for_action(cfg, atoms, term, second=None):
     return F
 
 
+def enum_action_campaign(which):
+    """One-off deep explorations beyond the registered tiers (bin/campaign.py): 5-atom structural programs in the other rule contexts, 6-atom programs of a narrowed shape."""
+    structural = [i for i, (n, _) in enumerate(ACTION_ATOMS) if n in ('next', 'glyph_x', 'subs+1', 'copy-1', 'copy+1', 'insert', 'delete', 'assoc-1+1', 'att-1', 'att+1', 'att0')]
+    spos = [i for i in structural if ACTION_ATOMS[i][0] not in ('insert', 'delete')]
+    if which == 'campaign5':
+        for cfg in ((3, 1, 5, 'sub'), (1, 0, 1, 'sub'), (3, 0, 5, 'sub')):
+            for atoms in itertools.product(structural, repeat=5): yield ('action', cfg, atoms, 0)
+        for cfg in ((2, 0, 1, 'pos'), (2, 1, 2, 'pos')):
+            for atoms in itertools.product(spos, repeat=5): yield ('action', cfg, atoms, 0)
+    elif which == 'campaign6':
+        idx = {n: i for i, (n, _) in enumerate(ACTION_ATOMS)}
+        must = [{idx['delete'], idx['insert']}, {idx['copy-1'], idx['copy+1']}, {idx['att-1'], idx['att+1'], idx['att0']}]
+        for cfg in ((2, 0, 2, 'sub'), (3, 1, 5, 'sub')):
+            for atoms in itertools.product(structural, repeat=6):
+                sa = set(atoms)
+                if sum(1 for m in must if sa & m) < 2: continue
+                yield ('action', cfg, atoms, 0)
+
+
 def enum_action(tier):
+    if tier.startswith('campaign'):
+        yield from enum_action_campaign(tier); return
     thorough = tier == 'thorough'
     cfgs = [(2, 0, 2, 'sub'), (3, 1, 5, 'sub'), (2, 0, 1, 'pos')]
     if thorough: cfgs += [(1, 0, 1, 'sub'), (3, 0, 5, 'sub'), (2, 1, 2, 'pos')]
